@@ -1466,8 +1466,10 @@ impl Prop for P {
         "every tree of 2..16 leaves x every non-empty position subset (all orders for small sets) with the unmodified opening and with \
          single-element (leaf, node, position, depth) and shape (missing/extra node, row, leaf, position; duplicated, out-of-range, aliased \
          positions; swapped order) mutations, every single path with every element/position/length mutation, sampled trees of depth 5..12 \
-         with clustered and scattered position sets of 1..255 positions, over a toy 64-bit hasher (compared with the Lean model) and the six \
-         real hashers (oracle only); a case is non-trivial when it is a distinct op line that is not answered bad-op"
+         with clustered and scattered position sets of 1..255 positions; leaf patterns for every tree size (all-equal, every run of equal \
+         leaves at even and odd starts, alternating, interleaved pairs, one distinct leaf, equal halves, leaves equal to internal nodes): root, \
+         every prove path and the batch openings of all subsets against the naive recursive hash; over a toy 64-bit hasher (compared with the \
+         Lean model) and the six real hashers (oracle only); a case is non-trivial when it is a distinct op line that is not answered bad-op"
     }
     fn nontrivial(&self, _line: &str, out: &str) -> bool {
         out != "bad-op"
